@@ -314,7 +314,8 @@ def rule_lazy(repo, rule):
                     "LinComb.ONE - %s" % cond, "LinComb.ONE_SAFE - %s.lc" % cond}
     for call, gexpr, branch in sites:
         btxt = norm(branch)
-        gtxt = norm(gexpr)
+        from ..flatten import resolve_locals as _rl7
+        gtxt = norm(_rl7(fi.node, gexpr, keep={cond, fi.params[1], fi.params[2]}))      # a named complement (`nc = ~cond; guarded(nc.lc)`) is the complement
         where = fi.loc(call)
         # kind of the guard expression as computed by the abstract interpreter (cond is a LinCombBool here)
         kinds = set()
